@@ -40,7 +40,7 @@ REACH_EXPECTED = ['reconfig_in_overhead_window', 'midnight_crossed', 'year_end_c
                   'leap_day', 'cron_reset_taken', 'short_blocking_sleep', 'probe_counted',
                   'output_changed', 'endpoint_last_ms_of_day', 'start_near_boundary']
 ASSUMPTIONS = [
-    "guard band: probes within 1 ms before and latency + 3 ms + 50 x cost after an own boundary "
+    "guard band: probes within 1 ms before and latency + 3 ms + 50 x cost + 40 x clock-read cost after an own boundary "
     "(incl. midnight) are not counted; probes during a stall and one guard band after it are "
     "not counted; after a forward clock jump probes count again after 1 h + guard; after a "
     "backward jump or a DST change only 'never terminates' is asserted for the rest of the run",
@@ -58,8 +58,17 @@ START_DATES = [
 GRID_US = [-2000, -1200, -600, -100, -1, 0, 1, 100, 1000]
 
 
-def rnd_tod(rng, anchors):
-    """A time of day [h,m,s,us]; often close to 'anchors' or to the end of the day."""
+def rnd_tod(rng, anchors, near=None):
+    """
+    A time of day [h,m,s,us]; often close to 'anchors' or to the end of the day.
+    near: time of day (us) of the instant at which the configuration takes effect; sometimes
+    the endpoint lies microseconds to milliseconds after it (a boundary of the block being
+    started/reconfigured that falls into the scheduler's reload).
+    """
+    if near is not None and rng.random() < 0.15:
+        base = (near + rng.choice([3, 10, 25, 60, 150, 400, 1000, 2500]) + rng.randrange(0, 20)) % DAY
+        s, us = divmod(base, US)
+        return [s // 3600, s // 60 % 60, s % 60, us]
     r = rng.random()
     if r < 0.12:
         return rng.choice([[23, 59, 59, 999_900], [23, 59, 59, 999_999], [23, 59, 59, 0],
@@ -74,17 +83,17 @@ def rnd_tod(rng, anchors):
     return [s // 3600, s // 60 % 60, s % 60, us]
 
 
-def rnd_times(rng, anchors):
+def rnd_times(rng, anchors, near=None):
     if rng.random() < 0.06:
         return []
     out = []
     for _ in range(rng.choice([1, 1, 2, 3])):
-        a = rnd_tod(rng, anchors)
+        a = rnd_tod(rng, anchors, near)
         r = rng.random()
         if r < 0.08:
             b = list(a)
         else:
-            b = rnd_tod(rng, anchors + [cal.tod_us(a)])
+            b = rnd_tod(rng, anchors + [cal.tod_us(a)], near)
         out.append([a, b])
     return out
 
@@ -112,12 +121,14 @@ def rnd_weekdays(rng):
     return sorted(rng.sample(range(0, 8), rng.randint(1, 5)))
 
 
-def rnd_cfg(rng, kind, utc, today, anchors, start_abs):
+def rnd_cfg(rng, kind, utc, today, anchors, start_abs, near=False):
     if kind == 'ts':
         span = []
         for _ in range(rng.choice([0, 1, 1, 2, 3])):
             a = start_abs + rng.randrange(-2 * 3600, 3 * 24 * 3600) * US \
                 + rng.choice([0, 0, 1, 999_999, 500_000])
+            if near and rng.random() < 0.15:
+                a = start_abs + rng.choice([3, 10, 25, 60, 150, 400, 1000, 2500]) + rng.randrange(0, 20)
             if rng.random() < 0.3 and anchors:
                 a = a - a % DAY + rng.choice(anchors)
             length = rng.choice([1, 60, 3600, 5 * 3600, 30 * 3600, 86400, -3600]) * US \
@@ -130,7 +141,7 @@ def rnd_cfg(rng, kind, utc, today, anchors, start_abs):
     if r < 0.04:
         return cfg
     if rng.random() < 0.85:
-        cfg['times'] = rnd_times(rng, anchors)
+        cfg['times'] = rnd_times(rng, anchors, start_abs % DAY if near else None)
     if rng.random() < 0.3:
         cfg['dates'] = rnd_dates(rng, today)
     if rng.random() < 0.3:
@@ -170,7 +181,7 @@ def gen(rng, tier, index=0):
         kind = 'td' if rng.random() < 0.7 else 'ts'
         local_start = start_wall + (0 if utc else tz_s * US)
         today = list(_abs_seq(local_start)[:3])
-        cfg = rnd_cfg(rng, kind, utc, today, anchors, local_start)
+        cfg = rnd_cfg(rng, kind, utc, today, anchors, local_start, near=True)
         cfg['name'] = f"{kind}{i}"
         if kind == 'td' and cfg['times']:
             anchors.extend(cal.tod_us(ep) for rg in cfg['times'] for ep in rg)
@@ -184,6 +195,8 @@ def gen(rng, tier, index=0):
         if allb:
             b = rng.choice(allb)
             start_wall = start_wall + b + rng.choice(GRID_US) - rng.choice([0, 50, 200, 900])
+            if rng.random() < 0.25:
+                start_wall = start_wall - rng.choice(GRID_US) - rng.randrange(0, 120)
     # ops
     ops = []
     cur = {c['name']: c for c in blocks}
@@ -194,11 +207,15 @@ def gen(rng, tier, index=0):
         bl = [b for b in bl if 1000 * US < b < dur_us]
         if bl and rng.random() < 0.75:
             t_us = rng.choice(bl) + rng.choice(GRID_US)
+            if rng.random() < 0.3:
+                # microsecond grid just before the boundary: the reload that follows the
+                # reconfig reads the clock several times within a few microseconds
+                t_us = rng.choice(bl) - rng.randrange(0, 80)
         else:
             t_us = rng.randrange(1000 * US, dur_us)
         local = start_wall + t_us + (0 if tgt['utc'] else tz_s * US)
         newcfg = rnd_cfg(rng, tgt['kind'], tgt['utc'], list(_abs_seq(local)[:3]),
-                         anchors + [local % DAY], local)
+                         anchors + [local % DAY], local, near=True)
         newcfg['name'] = tgt['name']
         ops.append({'t_us': t_us, 'op': 'reconfig', 'blk': tgt['name'], 'cfg': newcfg,
                     'cost_us': rng.choice([0, 0, 100, 600, 1500, 3000])})
@@ -230,9 +247,12 @@ def gen(rng, tier, index=0):
     knobs = gen_knobs(rng, latency=True, cost=True, ties=False, min_cost_ns=2000, origins=True)
     if knobs['cost_ns'] > 20_000:
         knobs['cost_ns'] = 20_000
-    return {'knobs': knobs, 'start_wall_us': start_wall, 'tz_s': tz_s, 'dur_us': dur_us,
+    plan = {'knobs': knobs, 'start_wall_us': start_wall, 'tz_s': tz_s, 'dur_us': dur_us,
             'blocks': blocks, 'ops': ops, 'probe_seed': rng.randrange(1 << 30),
             'n_random_probes': 30}
+    # modelled clock-read latency: what one time.time()/datetime.now() call costs
+    plan['read_cost_ns'] = rng.choice([1000] * 5 + [2000, 5000, 20_000, 60_000])
+    return plan
 
 
 # --------------------------------------------------------------------------- execution
@@ -256,8 +276,9 @@ def reconfig_data(cfg):
 def execute(plan, trace=False):
     import random
     knobs = plan['knobs']
+    read_cost_ns = int(plan.get('read_cost_ns', 1000))
     run = Run(knobs, wall_start_us=plan['start_wall_us'] - 0, tz_offset_s=plan['tz_s'],
-              max_steps=2_000_000)
+              max_steps=2_000_000, read_cost_ns=read_cost_ns)
     try:
         loop = run.loop
         blocks = {}
@@ -268,7 +289,9 @@ def execute(plan, trace=False):
         circuit = edzed.get_circuit()
         lat_us = knobs['latency_ns'] // 1000
         cost_us = knobs['cost_ns'] // 1000
-        guard_after = lat_us + 3000 + 50 * cost_us
+        guard_after = lat_us + 3000 + 50 * cost_us + 40 * (read_cost_ns // 1000 - 1)
+        if read_cost_ns > 1000:
+            run.fired('fault:slow_clock_read')
         guard_before = 1000
         st = {
             'ready': False, 'terminated': False, 'counted': 0, 'skipped': 0,
